@@ -53,6 +53,7 @@ GHOST static void gio_fail(const char* kind, const char* fmt, ...) {
   va_end(ap);
   vs_violation(kind, "%s", buf);
 }
+static int io_echopairs;
 GHOST static void g_bump(int* c) { (*c)++; }
 // one role (reader or writer of one direction) on an end of stream s is finished; the last one closes the descriptor
 static void role_done(int s, int end, int fd) {
@@ -66,6 +67,16 @@ static void role_done(int s, int end, int fd) {
 static void io_setup(void) {
   signal(SIGPIPE, SIG_IGN);
   nstr = (int)cfg_get("nstream", 0);
+  // cfg fd_floor: the program already holds that many descriptors (the streams below get numbers above it)
+  long floor_ = cfg_get("fd_floor", 0);
+  if (floor_ > 0 && floor_ < 600)
+    for (;;) {
+      int f = (int)syscall(SYS_open, "/dev/null", O_RDONLY | O_CLOEXEC);
+      if (f < 0 || f >= floor_) {
+        if (f >= 0) syscall(SYS_close, f);
+        break;
+      }
+    }
   for (int i = 0; i < g_case.n_fibers; i++)
     for (int j = 0; j < g_case.n_ops[i]; j++) {
       op_t* o = &g_case.ops[i][j];
@@ -155,6 +166,12 @@ static int chunk_of(int code, long left) {
 static unsigned char iobuf[MAX_FIBERS][300000];
 
 static int io_do_op(int idx, op_t* op) {
+  // "iowr"/"iord": the same ops under names that do not collide with the rwlock harness in mixed programs
+  if (!strcmp(op->name, "iowr") || !strcmp(op->name, "iord")) {
+    op_t alias = *op;
+    strcpy(alias.name, op->name + 2);
+    return io_do_op(idx, &alias);
+  }
   if (!strcmp(op->name, "wr") || !strcmp(op->name, "rd")) {
     int s = (op->a >> 1) % NSTR, d = op->a & 1;
     long n = op->b;
@@ -233,6 +250,7 @@ static int io_do_op(int idx, op_t* op) {
     int end = wend(s, d);
     int fd = wfd(s, d);
     g_wclosed[s][d] = 1;
+    vs_drain();  // harness bookkeeping must be visible before the system call takes effect (TSO mode buffers plain stores)
     // a socketpair end may also carry the reader of the other direction: the writer half-closes,
     // the descriptor itself is closed when every role on it is finished
     if (str[s].type != ST_PIPE) shutdown(fd, SHUT_WR);
@@ -246,7 +264,30 @@ static int io_do_op(int idx, op_t* op) {
     str[s].closed[end] = 1;
     for (int i = 0; i < g_case.n_fibers; i++)
       if (i != idx && waiting_on_fd[i] == rfd(s, d) + 1) g_bump(&io_close_under_waiter);
+    vs_drain();
     close(rfd(s, d));
+    return 1;
+  }
+  if (!strcmp(op->name, "echopair")) {
+    // a fresh socketpair (the kernel hands out the lowest free numbers: typically the ones a stream of this program has just
+    // given back), a bytes written into one end and read back from the other through the shims, both ends closed again
+    int p[2];
+    if (socketpair(AF_UNIX, SOCK_STREAM, 0, p)) gio_fail("badfd_result", "socketpair failed, errno %d", errno);
+    unsigned char out[64], in[64];
+    int n = op->a > 0 && op->a <= 64 ? op->a : 1;
+    for (int i = 0; i < n; i++) out[i] = (unsigned char)(idx * 31 + i * 7 + 1);
+    ssize_t w = write(p[1], out, (size_t)n);
+    if (w != n) gio_fail("stream_mismatch", "fiber %d: write of %d bytes to a fresh socketpair returned %zd (errno %d)", idx, n, w, errno);
+    int got = 0;
+    while (got < n) {
+      ssize_t r = read(p[0], in + got, (size_t)(n - got));
+      if (r <= 0) gio_fail("stream_mismatch", "fiber %d: read on a fresh socketpair returned %zd (errno %d) with %d of %d bytes outstanding", idx, r, errno, n - got, n);
+      got += (int)r;
+    }
+    if (memcmp(out, in, (size_t)n)) gio_fail("stream_mismatch", "fiber %d: fresh socketpair returned other bytes than were written", idx);
+    close(p[0]);
+    close(p[1]);
+    g_bump(&io_echopairs);
     return 1;
   }
   if (!strcmp(op->name, "nbmode")) {
